@@ -36,7 +36,10 @@ let words_bytes ws = List.concat_map (fun w -> let v = int_of_n w in List.map n_
 let gcm_e alg key = if alg = "sm4" then (if ilen key = 16 then Some (sm4e key, true) else None)
   else (if aes_key_ok key then Some (aese key, false) else None)
 
-let handle ws = match ws with
+let handle ws =
+  (* in-place classes: `op!` must give the result of `op` *)
+  let ws = (match ws with op :: r when String.length op > 1 && op.[String.length op - 1] = '!' -> String.sub op 0 (String.length op - 1) :: r | _ -> ws) in
+  match ws with
   | ["gf128mul"; a; b] ->
     let a = gf_from_bytes (bytes_of_hex a) and b = gf_from_bytes (bytes_of_hex b) in
     let r = gf128_mul a b in
@@ -138,7 +141,7 @@ let handle ws = match ws with
     if not (aes_key_ok key) || ilen iv <> 16 then "ERR" else hx (cbc_pad_encrypt (aese key) iv d)
   | ["aescbcdec"; key; iv; d] ->
     let key = bytes_of_hex key and iv = bytes_of_hex iv and d = bytes_of_hex d in
-    if not (aes_key_ok key) || ilen iv <> 16 then "ERR" else res_str hx (cbc_pad_decrypt (aesd key) iv d)
+    if not (aes_key_ok key) || ilen iv <> 16 then "ERR" else res_str hx (cbc_pad_decrypt (aesd key) false iv d)
   | ["aesctr"; key; iv; d] ->
     let key = bytes_of_hex key and iv = bytes_of_hex iv and d = bytes_of_hex d in
     if not (aes_key_ok key) || ilen iv <> 16 then "ERR" else hx (ctr128_crypt (aese key) iv d)
